@@ -276,7 +276,23 @@ struct P_C03
                 if (st.want_sample()) { vj::Value s = vj::Value::object(); s.set("pattern", c.pat); s.set("ast", p.ast.show()); s.set("spec_states", (unsigned long long)spec.size()); s.set("impl_states", (unsigned long long)b.dfa.size()); s.set("verdict", verdict); st.sample(s); }
             }
         };
-        if (eq) { account("impl==spec"); return Verdict::pass(); }
+        if (eq)
+        {
+            // the automata agree; what the matcher does with the match LENGTH is not visible there: for some patterns with an infinite language a member of
+            // 65536 bytes or more (lengths around the 16-bit boundary and its multiples) goes through the real matcher
+            if ((h % 16) == 0)
+            {
+                static const size_t targets[] = {65535, 65536, 65537, 70001, 131072, 196613};
+                std::string lw;
+                if (rx::long_member(spec, targets[(h >> 8) % 6], h >> 16, lw) && rx::dfa_run(spec, lw) == 0)
+                {
+                    st.sub_evaluations += st.counting ? 1 : 0;
+                    if (!real_match(lw)) { det.set("member_bytes", (unsigned long long)lw.size()); det.set("member_prefix", lw.substr(0, 60)); return Verdict::fail("matcher rejects a long string of the pattern's language (" + std::to_string(lw.size()) + " bytes)", det); }
+                    if (st.counting) st.label(lw.size() >= 65536 ? "long-member>=64KiB" : "long-member");
+                }
+            }
+            account("impl==spec"); return Verdict::pass();
+        }
         // confirm the distinguishing string on the real matcher and on the second reference
         bool spec_acc = rx::dfa_run(spec, w) == 0;
         int deriv3 = rx::Deriv(p.ast).match3(w);
